@@ -25,12 +25,14 @@ END_TOD = 23 * 3600 + 59 * 60
 def gen_config(rng, profile="any", tier="quick"):
     """Draw one backtest configuration + market.  `profile` narrows the swarm to a property's domain."""
     n_assets = rng.randrange(1, 6)
+    if rng.random() < (0.2 if tier == "thorough" else 0.05):
+        n_assets = rng.randrange(6, 11)             # wide universes
     syms = mk.SYMS[:n_assets]
     assets = ["EQ:" + s for s in syms]
     if tier == "quick":
         n_bdays = rng.choice([5, 8, 12, 20, 30, 45, 65])
     else:
-        n_bdays = rng.choice([5, 10, 20, 30, 45, 65, 90, 120])
+        n_bdays = rng.choice([5, 10, 20, 30, 45, 65, 90, 120, 260])   # up to a full year
     d0 = rng.randrange(cal.epoch_day(2005, 1, 1), cal.epoch_day(2024, 6, 1))
     if rng.random() < 0.75:
         while not cal.is_bday(d0):
